@@ -59,6 +59,7 @@ func main() {
 	flag.Var(&replaces, "replace", "path=file: plain overlay replacement")
 	var durable multi
 	flag.Var(&durable, "durable", "directory of a dependency package whose sync import is replaced by the durable, uncontrolled vsyncd")
+	plain := flag.String("plain", "", "also write a plain overlay (mount path -> repo path for every non-test .go file) to this file, for uninstrumented builds against another working tree")
 	stats := flag.Bool("stats", false, "print rewrite statistics")
 	flag.Parse()
 	if *out == "" {
@@ -73,6 +74,36 @@ func main() {
 	counts := map[string]int{}
 	for _, d := range dirs {
 		rewriteDir(*repo, *mount, d, *out, exp, overlay, counts)
+	}
+	// every other non-test source file of the working tree (unchanged by the rewriter) must also come
+	// from -repo when it is not the mounted tree
+	plainMap := map[string]string{}
+	filepath.Walk(*repo, func(pth string, info os.FileInfo, err error) error {
+		if err != nil {
+			return nil
+		}
+		if info.IsDir() {
+			if n := info.Name(); n == ".git" || n == "examples" || n == "docs" {
+				return filepath.SkipDir
+			}
+			return nil
+		}
+		if !strings.HasSuffix(pth, ".go") || strings.HasSuffix(pth, "_test.go") {
+			return nil
+		}
+		rel, _ := filepath.Rel(*repo, pth)
+		mp := filepath.Join(*mount, rel)
+		plainMap[mp] = pth
+		if _, ok := overlay[mp]; !ok && *repo != *mount {
+			overlay[mp] = pth
+		}
+		return nil
+	})
+	if *plain != "" {
+		pb, _ := json.MarshalIndent(map[string]any{"Replace": plainMap}, "", " ")
+		if err := os.WriteFile(*plain, pb, 0o644); err != nil {
+			fatalf("%v", err)
+		}
 	}
 	for _, e := range replaces {
 		path, file, ok := strings.Cut(e, "=")
